@@ -11,7 +11,7 @@ theorem bindsRefIds_mono (k : RefKind) {bs bs' : List Bind} (h : ∀ b ∈ bs, b
   obtain ⟨b, hb, hxb⟩ := hx
   exact ⟨b, h b hb, hxb⟩
 
-theorem mem_withMaster (c : Call) {bs : List Bind} {b : Bind} (hb : b ∈ bs) : b ∈ withMaster c bs := by
+theorem mem_withMaster (m : Option Ref) {bs : List Bind} {b : Bind} (hb : b ∈ bs) : b ∈ withMaster m bs := by
   unfold withMaster
   split
   · exact hb
